@@ -118,6 +118,24 @@ def run(ctx, F):
                   expected="dominated by will_oom_on_alloc(size) == true", found=str(guard_strs(of, cs.bb)), where=where(of, cs.line),
                   key="C10.obvious|guard")
 
+    # the slow path retries until thrown_oom is set: an obvious OOM must mark the request as failed on every path,
+    # whether or not it may call the binding (otherwise alloc_slow_inline loops forever without ever collecting)
+    marks = [c.bb for c in live_calls(of, q=ALLOC_OOM)]
+    marks += [c.bb for c in live_calls(of, name="store") if show(strip(of.flow.arg_tree(c, 0))).endswith(".thrown_oom") and const_arg(of.flow.arg_tree(c, 1)) is True]
+    edges = branch_edges(of, r"will_oom_on_alloc", True)
+    okt = bool(edges) and bool(marks) and all(of.cfg.must_pass(marks, start=s) for a, s in edges)
+    ctx.judge(okt, "C10.obvious-oom-terminates", "an obvious OOM always ends the request", expected="on the will_oom_on_alloc()==true arm every path sets thrown_oom (directly or through out_of_memory)",
+              found="marking blocks=%s" % marks, where=where(of), key="C10.obvious-oom-terminates|mark")
+    oom_w = F.fn(ALLOC_OOM)
+    st_ = [c for c in live_calls(oom_w, name="store") if show(strip(oom_w.flow.arg_tree(c, 0))).endswith(".thrown_oom") and const_arg(oom_w.flow.arg_tree(c, 1)) is True]
+    ctx.judge(bool(st_) and oom_w.cfg.must_pass([c.bb for c in st_]), "C10.obvious-oom-terminates", "Allocator::out_of_memory records that the request failed", expected="thrown_oom.store(true) on every path",
+              found=str(len(st_)), where=where(oom_w), key="C10.obvious-oom-terminates|wrapper")
+    thr = [c for c in live_calls(slow, name="load") if show(strip(slow.flow.arg_tree(c, 0))).endswith(".thrown_oom")]
+    giveup = [c for c in resets if guard_find(slow, c.bb, r"\.thrown_oom", True)]
+    ctx.judge(bool(thr) and len(giveup) >= 1 and not [x for g_ in giveup for x in calls_after(slow, g_.bb) if x.name and x.name.startswith("alloc_slow_once")], "C10.obvious-oom-terminates",
+              "the slow path gives up once the request is marked failed", expected="thrown_oom == true -> reset state and return without retrying", found="loads=%d give-up arms=%d" % (len(thr), len(giveup)),
+              where=where(slow), key="C10.obvious-oom-terminates|giveup")
+
     # ---- C10.no-block-when-not-safepoint
     bsites = callers(F, COLL + "block_for_gc")
     ctx.floor("C10.no-block-when-not-safepoint", len(bsites), 3, "block_for_gc call sites")
